@@ -84,6 +84,16 @@ def targeted_docs(rng, n):
         d = RawDoc("\n".join(lines))
         d.fault = "multi"
         docs.append(d)
+    # one attached type written in two spellings on one child (base class and concrete layout class)
+    for k in range(max(2, n // 4)):
+        kids = []
+        for i in range(rng.randint(2, 5)):
+            a, b = rng.sample(["row: %d" % (i // 2), "column: %d" % (i % 2), "rowStretch: %d" % (i + 1), "columnStretch: %d" % (i + 2), "alignment: Qt.AlignLeft"], 2)
+            first, second = rng.sample(["QLayout", "QGridLayout"], 2)
+            kids.append("        QLabel { %s.%s; %s.%s }" % (first, a, second, b))
+        d = RawDoc("import qmluic.QtWidgets\nQWidget {\n    QGridLayout {\n%s\n    }\n}\n" % "\n".join(kids))
+        d.fault = "multi"
+        docs.append(d)
     return docs
 
 
@@ -175,6 +185,22 @@ def run(tier, seed, replay=None):
                 # next run in a clean directory state for comparison of fresh outputs
                 first = outs[0]
         cli_checked += 1
+        # the outputs depend on the inputs only, not on what the output paths held before: a shorter revision generated over
+        # the longer one equals the same revision generated into an empty directory
+        short = "import qmluic.QtWidgets\nQWidget { QCheckBox { id: c } QLabel { enabled: c.checked } }\n"
+        fresh = os.path.join(cli_dir, "p%d_fresh" % i)
+        os.makedirs(fresh)
+        got = {}
+        for where in (pdir, fresh):
+            with open(os.path.join(where, "Form.qml"), "w") as f:
+                f.write(short)
+            subprocess.run([common.CLI, "generate-ui", "--foreign-types", common.METATYPES, "--foreign-types", common.VF_TYPES, "Form.qml"],
+                           cwd=where, capture_output=True, text=True, env=dict(os.environ, NO_COLOR="1"), timeout=120)
+            got[where] = {fn: open(os.path.join(where, fn), "rb").read() for fn in ("form.ui", "uisupport_form.h") if os.path.exists(os.path.join(where, fn))}
+        if got[pdir] != got[fresh]:
+            v.violation("cli-history-dependent", "a revision generated over the outputs of an earlier (longer) revision differs from the same "
+                        "revision generated into an empty directory: %r" % {fn: (len(got[pdir].get(fn, b"")), len(got[fresh].get(fn, b""))) for fn in got[fresh]},
+                        {"qml_before": d.source, "qml_now": short})
         if outs[0][0] != outs[1][0] or outs[0][2] != outs[1][2] or outs[1][2] != outs[2][2] or outs[0][1] != outs[1][1]:
             v.violation("cli-nondeterministic", "CLI runs on the same input differ (status/stderr/outputs)",
                         {"qml": d.source, "status": [o[0] for o in outs], "stderr": [o[1][-500:] for o in outs]})
